@@ -876,6 +876,42 @@ func (g *Gen) transCall(e *Expr, env *TEnv) tvT {
 			g.fail("abs in bv mode")
 		}
 		return tvT{t: fmt.Sprintf("(ite (< %s 0) (- %s) %s)", a.t, a.t, a.t), gt: mathInt}
+	case "arr":
+		// arr(s): the identity of the backing array of slice s (two slices share storage only if these are equal)
+		x := g.trans(args[0], env)
+		if x.gt == nil {
+			g.fail("arr() of non-slice")
+		}
+		if _, ok := x.gt.Underlying().(*types.Slice); !ok {
+			g.fail("arr() of non-slice")
+		}
+		return tvT{t: fmt.Sprintf("(base %s)", x.t), sort: "Int"}
+	case "whole":
+		// whole(x): the storage x refers to (a slice's backing array, or the object a pointer denotes) is an
+		// allocation of its own, not an array or struct embedded in another object
+		x := g.trans(args[0], env)
+		r := x.t
+		if x.gt != nil {
+			if _, ok := x.gt.Underlying().(*types.Slice); ok {
+				r = fmt.Sprintf("(base %s)", x.t)
+			}
+		}
+		g.needFldTag()
+		return boolTv(fmt.Sprintf("(= (fldtag %s) 0)", r))
+	case "seen1", "seen2", "seen3", "seen4":
+		// seenN(k): the N-th map iteration of the function has already produced key k
+		k := g.trans(args[0], env)
+		for rg, comp := range g.fr.rangeSeen {
+			if comp == "L_"+name {
+				mt := rg.X.Type().Underlying().(*types.Map)
+				kt := k.t
+				if g.bv && k.lit != nil {
+					kt = g.numBig(k.lit, mt.Key())
+				}
+				return boolTv(fmt.Sprintf("(select %s %s)", env.heap(comp), g.mapKey(kt, mt)))
+			}
+		}
+		g.fail("%s(): the function has no such map iteration before this point", name)
 	case "has":
 		// has(m, k): key k is in map m
 		m := g.trans(args[0], env)
@@ -934,7 +970,9 @@ func (g *Gen) transCall(e *Expr, env *TEnv) tvT {
 			g.needFldTag()
 			return boolTv(fmt.Sprintf("(and (>= %s %s) (< %s %s) (= (fldtag %s) 0))", r, env.freshLo, r, env.freshHi, r))
 		}
-		return boolTv(fmt.Sprintf("(>= %s %s)", r, refBound))
+		// (callers assume a fresh reference is a whole allocation, so that is part of what is proved)
+		g.needFldTag()
+		return boolTv(fmt.Sprintf("(and (>= %s %s) (= (fldtag %s) 0))", r, refBound, r))
 	case "typeof":
 		x := g.trans(args[0], env)
 		g.needIface()
